@@ -1649,7 +1649,7 @@ class Stage:
         subgrid = list(np.linspace(0, 1, M*refine+1))[:-1]
 
         v_sampled_store = []
-        for e in stage._method.signals.values():
+        for e in stage._method.system_signals():
             v_sampled = ca.horzsplit(e.sample(subgrid=subgrid,include_edges=False), refine)
             v_sampled_store.append(v_sampled)
         
